@@ -11,7 +11,10 @@ _CACHE = {}
 
 
 def files():
-    return sorted(glob.glob(os.path.join(env.REPO, "test", "res", "*.mid")))
+    """the MIDI fixtures; a scratch copy of the tree under test (mutation self-test) carries only scoda/, the fixtures
+    (test data, not code under test) are then taken from /repo"""
+    fs = sorted(glob.glob(os.path.join(env.REPO, "test", "res", "*.mid")))
+    return fs or sorted(glob.glob(os.path.join("/repo", "test", "res", "*.mid")))
 
 
 def raw_tracks():
